@@ -1,2 +1,3 @@
 #!/bin/sh
-exit 0
+# offline pre-build of the harness and the real binaries (checked profile)
+cd "$(dirname "$0")" && exec ./check build
